@@ -49,10 +49,12 @@ FNS = [
     ("drop_none", "tea-map/src/valid_iter.rs", "MapValidBasic", {}),
     ("vsorted_unique", "tea-map/src/valid_iter.rs", "MapValidBasic", {}),
     ("vsorted_unique_idx", "tea-map/src/valid_iter.rs", "MapValidBasic", {"keep": "Keep"}),
+    ("vcut", "tea-map/src/valid_iter.rs", "MapValidBasic",
+     {"bins": ("list", "Rat"), "labels": ("list", "Elem"), "right": "Bool", "add_bounds": "Bool"}),
 ]
 
 # `let mut x = None;` / `let mut x = if let … { … } else { None };` without annotation: the option type
-LET_TYPES = {"vsorted_unique_idx": {"last_value": "Elem"}}
+LET_TYPES = {"vsorted_unique_idx": {"last_value": "Elem"}, "vcut": {"out": ("opt", "Elem")}}
 
 # item type of the closure of a `filter_map` per function
 FILTER_MAP_ITEM = {"vsorted_unique": ("opt", "Elem"), "vsorted_unique_idx": "OptNat"}
@@ -113,6 +115,52 @@ def rewrite_replace(node):
     return node
 
 
+def rewrite_is_none(node):
+    """`if x.is_none() { A } else { B }`  ->  `if x.not_none() { B } else { A }` (B may unwrap `x`)"""
+    if isinstance(node, list):
+        return [rewrite_is_none(x) for x in node]
+    if not isinstance(node, tuple):
+        return node
+    node = tuple(rewrite_is_none(x) for x in node)
+    if (node and node[0] == "if" and node[3] is not None and node[3][0] == "block" and node[1][0] == "mcall"
+            and node[1][2] == "is_none" and not node[1][3] and node[1][1][0] == "path"):
+        return ("if", ("mcall", node[1][1], "not_none", []), node[3], node[2])
+    return node
+
+
+def has_break(node):
+    if isinstance(node, list):
+        return any(has_break(x) for x in node)
+    if isinstance(node, tuple):
+        if node == ("path", "break"):
+            return True
+        return any(has_break(x) for x in node)
+    return False
+
+
+def rewrite_break(node):
+    """`break;`  ->  `brk__ = true;`"""
+    if isinstance(node, list):
+        return [rewrite_break(x) for x in node]
+    if not isinstance(node, tuple):
+        return node
+    if node == ("expr", ("path", "break")):
+        return ("assign", "=", ("path", "brk__"), ("path", "true"))
+    return tuple(rewrite_break(x) for x in node)
+
+
+def contains_return(node):
+    if isinstance(node, list):
+        return any(contains_return(x) for x in node)
+    if isinstance(node, tuple):
+        if node and node[0] == "return":
+            return True
+        if node and node[0] == "closure":
+            return False
+        return any(contains_return(x) for x in node)
+    return False
+
+
 class MapEmit(C.Emit):
     def stmts(self, ss, tail, env, outs, expect=None):
         # `let first = iter.next();` on a list-valued iterator variable: its head, and the variable is its tail
@@ -126,6 +174,22 @@ class MapEmit(C.Emit):
             else:
                 ss1.append(st)
         ss = ss1
+        for idx, st in enumerate(ss):
+            if st[0] == "let" and st[3] is not None and st[1][0] == "pvar" and contains_return(st[3]):
+                # `let x = if c { return Err(..) } …;`: the initialiser in the Option monad (`none` = the early
+                # `Err`), then the rest of the block under the bound value
+                pre_txt, _ = super().stmts(ss[:idx], None, env, outs, None) if idx else ("", None)
+                self.in_result = True
+                e_txt, e_ty = self.result_value(st[3], env)
+                self.in_result = False
+                env2 = dict(env)
+                env2[st[1][1]] = e_ty
+                rest_txt, rest_ty = self.stmts(ss[idx + 1:], tail, env2, outs, expect)
+                if not (isinstance(rest_ty, tuple) and rest_ty[0] == "opt"):
+                    raise Unsupported(f"block after a fallible let has type {rest_ty}")
+                lines = pre_txt.split("\n")[:-1] if idx else []
+                lines.append(f"match (\n{C.indent(e_txt)}) with\n| none => none\n| some {C.lname(st[1][1])} =>\n{C.indent(rest_txt)}")
+                return "\n".join(lines), rest_ty
         # bind state-mutating closures (`let f = move |v: T| { … last_valid = … }`) symbolically
         ss2 = []
         ss = [(("let", st[1], st[2], ("call", "__none_optelem", []), st[4])
@@ -140,6 +204,44 @@ class MapEmit(C.Emit):
                 continue
             ss2.append(st)
         return super().stmts(ss2, tail, env, outs, expect)
+
+    def result_value(self, e, env):
+        """an expression that may `return Err(..)`: (text of type Option T, T)"""
+        k = e[0]
+        if k == "if":
+            c, cty = self.ex0(e[1], env)
+            if cty != "Bool":
+                raise Unsupported("condition is not boolean")
+            t, tt = self.result_value(e[2], env)
+            if e[3] is None:
+                raise Unsupported("fallible if without else")
+            f, ft = self.result_value(e[3], env)
+            if tt is None:
+                tt = ft
+            if ft is None:
+                ft = tt
+            if tt != ft:
+                raise Unsupported(f"fallible branches of types {tt} / {ft}")
+            return f"if {c} then\n{C.indent(t)}\nelse\n{C.indent(f)}", tt
+        if k == "block":
+            ss, tail = e[1], e[2]
+            # `if c { return Err(..) }` statements, then a value
+            if ss and ss[0][0] == "expr" and ss[0][1][0] == "if" and ss[0][1][3] is None and self.ends_with_return(ss[0][1][2]):
+                c, cty = self.ex0(ss[0][1][1], env)
+                if cty != "Bool":
+                    raise Unsupported("condition is not boolean")
+                rest, rt = self.result_value(("block", ss[1:], tail), env)
+                return f"if {c} then\n  none\nelse\n{C.indent(rest)}", rt
+            if ss and ss[0][0] == "expr" and ss[0][1][0] == "return":
+                return "none", None
+            if ss or tail is None:
+                raise Unsupported("fallible block shape")
+            v, vt = self.ex0(tail, env)
+            return f"some {v}", vt
+        if k == "return":
+            return "none", None
+        v, vt = self.ex0(e, env)
+        return f"some {v}", vt
 
     def conj(self, c):
         if c[0] == "paren":
@@ -173,11 +275,13 @@ class MapEmit(C.Emit):
                     if cty != "Bool":
                         raise Unsupported("condition is not boolean")
                     conds.append(ct)
-                want = expect if expect in ("Elem", "OptF") else "OptF"
+                want = expect if (expect in ("Elem", "OptF") or expect == ("opt", "Elem")) else "OptF"
                 t_txt, t_ty = self.effect(e[2], env_t, [], want)
                 ei_txt, ei_ty = self.effect(e[3], env_t, [], want)       # else, variables rebound
                 eo_txt, eo_ty = self.effect(e[3], dict(env), [], want)   # else, a variable is null
-                if not (elem_compat(t_ty, want) and elem_compat(ei_ty, want) and elem_compat(eo_ty, want)):
+                if want == ("opt", "Elem") and not (t_ty == ei_ty == eo_ty == want):
+                    raise Unsupported(f"guarded branches of types {t_ty} / {ei_ty} / {eo_ty}")
+                if want != ("opt", "Elem") and not (elem_compat(t_ty, want) and elem_compat(ei_ty, want) and elem_compat(eo_ty, want)):
                     raise Unsupported(f"guarded branches of types {t_ty} / {ei_ty} / {eo_ty}")
                 scrut = ", ".join(C.lname(n) for n in names)
                 pats = ", ".join(f"some {C.lname(n)}" for n in names)
@@ -189,6 +293,31 @@ class MapEmit(C.Emit):
             if outs:
                 raise Unsupported("guarded match that assigns")
             return self.matchg(e, env, expect)
+        if k == "for" and not (e[2][0] == "bin" and e[2][1] in ("..", "..=")):
+            # `for pat in <iterator> { …; if c { …; break; } }` over a list-valued iterator
+            pat, it, body = e[1], e[2], e[3]
+            r, tr = self.ex0(it, env)
+            if not is_list(tr):
+                raise Unsupported("for over a non-list")
+            if not outs:
+                return "()", None
+            brk = has_break(body)
+            body = rewrite_break(body)
+            env_b = dict(env)
+            ptxt = self.bind_pat(pat, tr[1], env_b)
+            st = list(outs)
+            if brk:
+                env_b["brk__"] = "Bool"
+                st = st + ["brk__"]
+            btxt, bty = self.stmts(body[1], body[2], env_b, st, None)
+            if bty is not None:
+                raise Unsupported("valued for body")
+            acc = C.tuple_txt([C.lname(o) for o in st])
+            if brk:
+                keep = C.tuple_txt([C.lname(o) for o in outs])
+                return (f"(List.foldl (fun {acc} {ptxt} =>\n  if brk__ then {acc} else\n{C.indent(btxt)})\n  {C.tuple_txt([C.lname(o) for o in outs] + ['false'])} {r}){'.1' if len(outs) == 1 else ''}"
+                        if len(outs) == 1 else None) or (_ for _ in ()).throw(Unsupported("for-break with several outputs")), None
+            return f"List.foldl (fun {acc} {ptxt} =>\n{C.indent(btxt)})\n  {acc} {r}", None
         if k == "match" and e[1][0] == "path" and env.get(e[1][1]) == "Keep":
             if outs:
                 raise Unsupported("match on keep that assigns")
@@ -266,6 +395,8 @@ class MapEmit(C.Emit):
             return "(\n" + C.indent(t) + ")", ty
         if k == "path" and e[1] == "T::is_none":
             return "Option.isNone", "Mask"
+        if k == "path" and e[1] in ("true", "false") and e[1] not in env:
+            return e[1], "Bool"
         if k == "match" and e[1][0] == "path" and env.get(e[1][1]) == "Keep":
             t, ty = self.effect(e, env, [], expect)
             return "(\n" + C.indent(t) + ")", ty
@@ -280,6 +411,18 @@ class MapEmit(C.Emit):
                 return f"({C.lname(name)} {a})", "Bool"
             if name == "__none_optelem":
                 return "none", ("opt", "Elem")
+            if name == "Ok" and len(args) == 1:
+                a, ta = self.ex0(args[0], env, expect[1] if isinstance(expect, tuple) and expect[0] == "opt" else None)
+                return f"(some {a})", ("opt", ta)
+            if name == "vec1__" and len(args) == 1:
+                a, ta = self.ex0(args[0], env)
+                if ta != "Rat":
+                    raise Unsupported("vec! element")
+                return f"[{a}]", ("list", "Rat")
+            if re.fullmatch(r"(\w+::)*min_", name) and not args and "MIN" in env:
+                return "MIN", "Rat"
+            if re.fullmatch(r"(\w+::)*max_", name) and not args and "MAX" in env:
+                return "MAX", "Rat"
             if re.fullmatch(r"(\w+::)*none", name) and not args:
                 return "none", "Elem"
             if re.fullmatch(r"(\w+::)*from_inner", name) and len(args) == 1:
@@ -324,6 +467,11 @@ class MapEmit(C.Emit):
                 return f"(lift2 (· {e[1]} ·) {a} {b})", ("Elem" if ta == tb == "Elem" else "OptF")
         if k == "mcall":
             name, args = e[2], e[3]
+            if e[1][0] == "path" and is_list(env.get(e[1][1])) and name in ("titer", "len"):
+                if name == "titer" and not args:
+                    return C.lname(e[1][1]), env[e[1][1]]
+                if name == "len" and not args:
+                    return f"{C.lname(e[1][1])}.length", "Nat"
             if e[1] == ("path", "self"):
                 if name == "titer" and not args:
                     return "xs", ("list", "Elem")
@@ -341,8 +489,21 @@ class MapEmit(C.Emit):
                     ats.append(at)
                 return f"({lean_name} xs" + "".join(" " + a for a in ats) + ")", ("list", "Elem")
             r, tr = self.ex0(e[1], env)
-            if name in ("clone", "as_ref", "into_iter", "collect_trusted_to_vec") and not args:
+            if name in ("clone", "as_ref", "into_iter", "collect_trusted_to_vec", "collect", "collect_trusted_vec1") and not args:
                 return r, tr
+            if name == "map" and args == [("path", "IsNone::unwrap")] and tr == ("list", "Rat"):
+                return r, tr          # the edges are non-null values: `unwrap` is the identity on them
+            if name == "saturating_sub" and len(args) == 1 and tr == "Nat":
+                a, ta = self.ex0(args[0], env)
+                if ta != "Nat":
+                    raise Unsupported("saturating_sub argument")
+                return f"({r} - {a})", "Nat"
+            if name == "tuple_windows" and not args and tr == ("list", "Rat"):
+                return f"(windows {r})", ("list", ("tuple", ("Rat", "Rat")))
+            if name == "ok_or_else" and len(args) == 1 and tr == ("opt", "Elem"):
+                return r, tr          # `None` becomes the per-element `Err`: `none` of the item type
+            if name == "len" and not args and is_list(tr):
+                return f"{r}.length", "Nat"
             if name == "rev" and not args and is_list(tr):
                 return f"{r}.reverse", tr
             if name == "__head" and is_list(tr):
@@ -408,7 +569,7 @@ class MapEmit(C.Emit):
                 return f"({r}.{'take' if name == 'take' else 'drop'} {a})", tr
             if name == "chain" and len(args) == 1 and is_list(tr):
                 a, ta = self.ex0(args[0], env)
-                if not (is_list(ta) and elem_compat(ta[1], tr[1])):
+                if not (is_list(ta) and (ta[1] == tr[1] or elem_compat(ta[1], tr[1]))):
                     raise Unsupported(f"chain of {tr} and {ta}")
                 return f"({r} ++ {a})", tr
             if name == "zip" and len(args) == 1 and is_list(tr):
@@ -424,10 +585,13 @@ class MapEmit(C.Emit):
                 ptxt = self.bind_pat(cl[1][0], tr[1], env2)
                 if [o for o in C.assigned_outer(cl[2]) if o in env]:
                     raise Unsupported("map closure assigns captured variables")
-                want = "Elem" if tr[1] == "Elem" else "OptF"
+                want = getattr(self, "map_item", None) or ("Elem" if tr[1] == "Elem" else "OptF")
                 b, tb = self.effect(cl[2], env2, [], want)
                 if tb == "Rat":
                     b, tb = f"some ({b})", want
+                if tb == ("opt", "Elem") and want == ("opt", "Elem"):
+                    body = "(\n" + C.indent(b) + ")" if "\n" in b else f"({b})"
+                    return f"({r}.map fun {ptxt} => {body})", ("list", ("opt", "Elem"))
                 if tb not in ("Elem", "OptF"):
                     raise Unsupported(f"map closure result {tb}")
                 body = "(\n" + C.indent(b) + ")" if "\n" in b else f"({b})"
@@ -491,18 +655,32 @@ def translate(name, rel, trait, params):
     sig_params = [p for p in sig_params if p not in ("self",)]
     if [p for p in sig_params if p in params] != list(params) or any(p not in params for p in sig_params):
         raise Unsupported(f"parameters {sig_params}")
-    blk = rewrite_replace(C.P(C.tokenize(body_src)).block())
+    if name == "vcut":
+        body_src = re.sub(r"//[^\n]*", "", body_src)
+        body_src = re.sub(r'"(?:[^"\\]|\\.)*"', "0", body_src)
+        bal = r"\((?:[^()]|\((?:[^()]|\([^()]*\))*\))*\)"
+        body_src = re.sub(r"\btbail!\s*" + bal, "return Err(0)", body_src)
+        body_src = re.sub(r"\bterr!\s*" + bal, "0", body_src)
+        body_src = re.sub(r"\bvec!\s*\[([^\[\]]*)\]", r"vec1__(\1)", body_src)
+    blk = rewrite_is_none(rewrite_replace(C.P(C.tokenize(body_src)).block()))
     em = MapEmit()
     em.none_types = LET_TYPES.get(name, {})
+    em.map_item = ("opt", "Elem") if name == "vcut" else None
     em.siblings = dict(SIBLINGS)
     em.allow_len = False
     em.filter_map_item = FILTER_MAP_ITEM.get(name)
     env = dict(params)
+    if name == "vcut":
+        env["MIN"] = "Rat"
+        env["MAX"] = "Rat"
     txt, ty = em.stmts(blk[1], blk[2], env, [], None)
-    if not is_list(ty) or ty[1] not in ("Elem", "OptF", "Nat"):
+    fallible = isinstance(ty, tuple) and ty[0] == "opt" and is_list(ty[1])
+    if not fallible and (not is_list(ty) or ty[1] not in ("Elem", "OptF", "Nat")):
         raise Unsupported(f"result type {ty}")
     L = [f"namespace {name}"]
     ps = "".join(f" ({C.lname(p)} : {ty_lean(t)})" for p, t in params.items())
+    if name == "vcut":
+        ps = " (MIN MAX : Rat)" + ps
     L.append(f"/-- `{trait}::{name}` ({rel}), in source order, on the list of items the iterator yields -/")
     L.append(f"def run (xs : List (Option Rat)){ps} : {ty_lean(ty)} :=")
     L.append(C.indent(txt, 2))
